@@ -1009,6 +1009,18 @@ pub fn run_case(c: &Case, cache: &mut Cache, st: &mut Stats) -> Result<(), (Stri
             ));
         }
     }
+    // "repayments complete" may only be forced on a bank the group admin has put into sunset (tokenless repayments allowed)
+    if let Op::ForceTokenless = c.op {
+        let post_flags = w.bank(t).flags;
+        let allowed = marginfi_type_crate::constants::TOKENLESS_REPAYMENTS_ALLOWED;
+        let complete = marginfi_type_crate::constants::TOKENLESS_REPAYMENTS_COMPLETE;
+        if b_pre.flags & allowed == 0 && b_pre.flags & complete == 0 && post_flags & complete != 0 {
+            return Err((
+                format!("frame:{name}:bank-not-in-sunset"),
+                format!("{name} by the risk admin marked a bank complete that the group admin never put into sunset (flags {:#b} -> {:#b}): its lenders can now be purged", b_pre.flags, post_flags),
+            ));
+        }
+    }
     if c.part == 0 {
         let v = frame_violations(&w, &c.op, &target, &fr, &pre_store, &post_store);
         if let Some((f, d)) = v.first() {
